@@ -181,11 +181,7 @@ Definition digits_val (ds : bytes) : Z := fold_left (fun a d => a * 10 + Z.of_N 
 Definition is_nil {A} (l : list A) : bool := match l with [] => true | _ => false end.
 
 (* number = [ minus ] int [ frac ] [ exp ]; no leading zeros *)
-Definition parse_number (s : bytes) : option (Z * Z * bytes) :=
-  let (neg, s1) := match s with
-                   | c :: r => if (c =? 45)%N then (true, r) else (false, s)
-                   | [] => (false, s)
-                   end in
+Definition parse_unsigned (neg : bool) (s1 : bytes) : option (Z * Z * bytes) :=
   let (ip, s2) := take_digits s1 in
   match ip with
   | [] => None
@@ -218,6 +214,12 @@ Definition parse_number (s : bytes) : option (Z * Z * bytes) :=
           else
             let m := digits_val (ip ++ fp) in
             Some ((if neg then - m else m), ex - Z.of_nat (length fp), s4)
+  end.
+
+Definition parse_number (s : bytes) : option (Z * Z * bytes) :=
+  match s with
+  | c :: r => if (c =? 45)%N then parse_unsigned true r else parse_unsigned false s
+  | [] => None
   end.
 
 Definition hexv (c : N) : option N :=
